@@ -42,6 +42,9 @@ CLAIMED = {
  "C14": ("fault_enumeration", "single-fault enumeration (k-th allocation refused; EINTR / EIO at each read index) with trace validation against FlexScanner and FlexHeap",
          "For each scenario a clean run counts allocation requests and read attempts; then one run per allocation index with that request refused and per read index with EINTR or a hard error (through the scanner's own stdio YY_INPUT on cookie streams).  FlexHeap allows nothing after a refusal but the fatal-error hook or the documented error return of yylex_init (ENOMEM/EINVAL, nothing kept); an EINTR run must equal the clean run; a hard error must reach the fatal-error hook.",
          "one fault per run; fault points capped per scenario in the quick tier; read(2) path (%option read) not exercised", "5 C14"),
+ "C15": ("model_checking", "TLC parses the real tables file with the documented container grammar (FlexTablesFile) and compares every value with the in-code tables; loader outcomes on every truncation / wrong magic / set order judged against Load; loaded-table scanners trace-validated",
+         "FlexTablesFile is the byte-level grammar of the container (magic, header and set sizes, NUL-terminated version and name, per-table id / width-and-shape flags / dimensions, big-endian, padding to 8).  TLC parses the file flex really wrote and checks (LayoutOK) that it is exactly a sequence of well-formed sets containing the scanner's set and (ContentOK) that every serialized table equals the table the in-code build of the same rule set dumps, for compressed, full, full-speed and REJECT tables.  The real loader is run on every prefix of the file, on a wrong magic number and on files holding another set before/after ours; LoaderOK: never a crash, success exactly when the grammar reaches a complete set of the wanted name.  Scanners running on loaded tables must produce executions equal to the in-code build's (trace unit).  --tables-verify accepts the genuine file and rejects altered values.",
+         "rule sets / table modes sampled; release by yytables_destroy observed by LeakSanitizer", "5 C15"),
  "C16": ("fault_enumeration", "observation tables of flex invocations (write faults on every output, structural mutations, random bytes, limit overruns) judged by TLC against FlexProc (Terminates, NoCrash, ExitHonest, LimitReported)",
          "The sanitizer build of flex is run on valid specifications with every requested output (scanner via -o and -t, header, tables, backup) failing in every mode (/dev/full, uncreatable path, RLIMIT_FSIZE), on option sets, on structurally mutated and random inputs and on inputs exceeding the documented limits; each invocation becomes one observation and TLC checks the FlexProc invariants on the whole table: terminates, no signal or sanitizer report, status 0 only with every requested output complete, non-zero status only with a diagnostic, a failing write never absorbed.",
          "input space explored, not exhausted; two open findings on --header-file write failures", "5 C16"),
